@@ -543,7 +543,7 @@ def scenario(rng, profile):
         R.step(dict(ev="rx", m=m, u=dict(R.user), beh=beh))
 
     def api(name, fn, **kw):
-        if name in ("call", "publish"):
+        if name in ("call", "publish", "leave"):
             kw.setdefault("bad", "")
         R.sync_m = None
         R.tr.sync_next = (profile in ("c04", "c06") and name in ("call", "publish", "subscribe", "unsubscribe", "register", "unregister")
@@ -1022,7 +1022,13 @@ def scenario(rng, profile):
             rnd_endpoint()
         elif r < 0.93:
             nm = rng.choice(["leave", "disconnect"])
-            api(nm, s.leave if nm == "leave" else s.disconnect)
+            if nm == "leave" and R.tr.max_size and rng.random() < 0.3:
+                # a closing message the transport cannot carry: the GOODBYE is refused, the session has not begun to leave
+                api("leave", lambda: s.leave(message="bye " * (R.tr.max_size // 2)), bad="size")
+                if rng.random() < 0.5:
+                    api("leave", s.leave)
+            else:
+                api(nm, s.leave if nm == "leave" else s.disconnect)
         elif r < 0.97 or profile == "c06" and r < 0.99:
             R.lost_flag = True
             s.onClose(rng.random() < 0.5)
